@@ -42,6 +42,15 @@ def fmtn(t, maxlen=400):
     return _SUFFIX.sub("", hir.fmt(t, maxlen))
 
 
+def normn(t):
+    """normal form with the renaming suffixes of expanded / unrolled locals removed"""
+    if isinstance(t, tuple):
+        if len(t) == 2 and t[0] == "var" and isinstance(t[1], str):
+            return ("var", _SUFFIX.sub("", t[1]))
+        return tuple(normn(x) for x in t)
+    return t
+
+
 GEN = "chess::piece::Piece::get_moves"
 PAWN = "chess::piece::Piece::get_pawn_moves"
 KINGF = "chess::piece::Piece::get_king_moves"
@@ -98,9 +107,9 @@ def tuple_lits(arr):
     return out
 
 
-def for_loops(fn, F):
+def for_loops(fn, F, env=None):
     """[(iterator normal form, bound names, loop-body node (the Some arm), match node)]"""
-    env = hir.Env(fn["hir"], F)
+    env = env or hir.Env(fn["hir"], F)
     sym = hir.Sym(env, F, depth=30)
     out = []
     for n, anc in hir.walk(fn["hir"]["body"]):
@@ -148,6 +157,47 @@ def ray_dir(it):
     return d, start
 
 
+def ray_of(it, names, body, sym, origin=("pos", "position")):
+    """Direction and first step of a ray loop, whatever its spelling: the loop body calls `<origin>.add(E)`; the k-th
+    iteration's E is obtained from the iterator - `(s..).map(|x| f(x))` binds the loop variable to f(k), a plain `s..`
+    binds it to k - and evaluated for k = s and s+1.  Returns ((dr, dc), s) if E(s) is a literal pair and E(s+1) = 2*E(s)
+    (a straight line walked one square at a time), else None."""
+    adds = [n for n, _ in hir.walk(body) if n.get("k") == "MethodCall" and hir.callee_of(n) == "chess::position::Position::add"
+            and hir.strip(n["recv"]).get("to", {}).get("name") in origin]
+    if len(adds) != 1 or not names:
+        return None
+    E = sym(adds[0]["args"][0])
+    v = ("var", names[0])
+    start = None
+    step = None
+    if it[0] == "call" and str(it[1]).endswith("Iterator::map") and len(it[2]) == 2 and it[2][1][0] == "closure" and len(it[2][1][1]) == 1:
+        rng, clo = it[2]
+        if rng[0] == "struct" and str(rng[1]).endswith("ops::RangeFrom"):
+            start = hir.sym_int(dict(rng[2]).get("start"))
+            x = ("var", clo[1][0])
+            step = lambda k: hir.fold(hir.subst(E, {v: hir.subst(clo[2], {x: ("lit", k)})}), {})
+    elif it[0] == "struct" and str(it[1]).endswith("ops::RangeFrom"):
+        start = hir.sym_int(dict(it[2]).get("start"))
+        step = lambda k: hir.fold(hir.subst(E, {v: ("lit", k)}), {})
+    if start is None or step is None:
+        return None
+    d1, d2 = step(start), step(start + 1)
+
+    def pair(t):
+        if t[0] == "tup" and len(t) == 3:
+            a, b = hir.sym_int(t[1]), hir.sym_int(t[2])
+            if a is not None and b is not None:
+                return (a, b)
+        return None
+    p1, p2 = pair(d1), pair(d2)
+    if p1 is None or p2 is None or start == 0:
+        return None
+    unit = (p1[0] // start if p1[0] % start == 0 else None, p1[1] // start if p1[1] % start == 0 else None)
+    if None in unit or p2 != (unit[0] * (start + 1), unit[1] * (start + 1)):
+        return None
+    return unit, start
+
+
 def piece_types_compared(node, sym):
     """PieceType variants that `<something>.piece_type` is compared with (==) under node."""
     out = set()
@@ -161,6 +211,89 @@ def piece_types_compared(node, sym):
     return out
 
 
+def detector_step_sites(F, D):
+    """Every `return true` of the attack detector outside the ray loops, evaluated per attacked side p and per delta d of the
+    enclosing table loop (or the literal delta of the site): the condition under which it fires, case-folded over
+    `position.add(d)` in {off the board, NP} and `get_position(NP)` in {empty, PC}.
+    Returns ({p: {kind: set(deltas)}}, problems[list of text], number of sites)."""
+    det = F.fn(DET)
+    body = det["hir"]["body"]
+    env = hir.Env(det["hir"], F)
+    sym = hir.Sym(env, F, depth=30)
+    loops, _ = for_loops(det, F, env=env)
+    ray_bodies = [lb for it, names, lb, m in loops if ray_of(it, names, lb, sym) is not None]
+    NP, PC = ("var", "NP"), ("var", "PC")
+    SOME, NONE = "std::prelude::v1::Some", ("variant", "std::prelude::v1::None")
+    att = {"White": {}, "Black": {}}
+    problems = []
+    nsites = 0
+    for r, anc in hir.walk(body):
+        if r.get("k") != "Ret" or r.get("e") is None or sym(r["e"]) != ("lit", True):
+            continue
+        if any(any(x is r for x, _ in hir.walk(rb)) for rb in ray_bodies):
+            continue
+        nsites += 1
+        g = hir.guards_of(r, body, sym) or []
+        # enclosing table loop (innermost)
+        lb = loop_binders(g)
+        it, lnames = (lb[-1][0], lb[-1][1]) if lb else (None, ())
+        players = ["White", "Black"]
+        term = ("lit", True)
+        for x in reversed(g):
+            if x[0] == "if" and x[2] is True and isinstance(x[1], tuple) and x[1][0] == "let" and x[1][1] == ("variant", SOME) and len(x[1][3]) == 1:
+                term = ("call", "std::option::Option::<T>::is_some_and", (x[1][2], ("closure", (x[1][3][0],), term)))
+            elif x[0] == "if":
+                if x[2] is False and any(y[:2] == ("call", "chess::position::Position::add") for y in hir.subterms(x[1])):
+                    continue    # "an earlier site (another square) did not fire": irrelevant for when THIS site fires
+                term = ("bin", "&&", x[1] if x[2] else ("not", x[1]), term)
+            elif x[0] == "arm" and x[1] == ("var", "player") and isinstance(x[2], tuple) and x[2][0] == "variant":
+                players = [x[2][1][len(PL):]]
+        for p in players:
+            base = {("var", "player"): ("variant", PL + p)}
+            deltas = []
+            if it is not None and lnames:
+                itf = hir.fold(hir.resolve_consts(it, F), base, D)
+                tl = tuple_lits(itf)
+                if tl is None:
+                    problems.append("line %s: the table of the loop around this site is not a literal table for %s: %s" % (hir.line(r), p, fmtn(itf, 80)))
+                    continue
+                deltas = [(d, {("var", lnames[0]): ("tup", ("lit", d[0]), ("lit", d[1]))}) for d in tl]
+            else:
+                adds = [x_ for x_ in hir.subterms(term) if x_[:2] == ("call", "chess::position::Position::add") and x_[2][0] == ("var", "position")]
+                dl = {tuple_lits(("arr", a_[2][1])) and tuple_lits(("arr", a_[2][1]))[0] for a_ in adds}
+                dl.discard(None)
+                if len(dl) != 1:
+                    problems.append("line %s: cannot tell which square this site tests" % hir.line(r))
+                    continue
+                deltas = [(list(dl)[0], {})]
+            for d, bind in deltas:
+                add_key = ("call", "chess::position::Position::add", (("var", "position"), ("tup", ("lit", d[0]), ("lit", d[1]))))
+                gp_key = ("call", "chess::Game::get_position", (("var", "self"), NP))
+                t1 = hir.subst(term, bind)
+                def case(extra):
+                    a_ = dict(base)
+                    a_.update(extra)
+                    return hir.fold(t1, a_, D)
+                c1 = case({add_key: NONE})
+                c2 = case({add_key: ("ctor", SOME, (NP,)), gp_key: NONE})
+                c3 = case({add_key: ("ctor", SOME, (NP,)), gp_key: ("ctor", SOME, (PC,))})
+                atoms_ = {hir.canon(a_) for a_ in hir.conj(c3) if a_ != ("lit", True)}
+                kind = None
+                for a_ in atoms_:
+                    if a_[0] == "bin" and a_[1] == "==" and ("field", PC, "piece_type") in (a_[2], a_[3]):
+                        o_ = a_[3] if a_[2] == ("field", PC, "piece_type") else a_[2]
+                        if o_[0] == "variant" and o_[1].startswith(PT):
+                            kind = o_[1][len(PT):]
+                want_atoms = {hir.canon(("bin", "!=", ("field", PC, "owner"), ("variant", PL + p))),
+                              hir.canon(("bin", "==", ("field", PC, "piece_type"), ("variant", PT + (kind or "?"))))}
+                if c1 != ("lit", False) or c2 != ("lit", False) or kind is None or atoms_ != want_atoms:
+                    problems.append("line %s, %s attacked from %s: fires when [off board: %s] [empty: %s] [piece PC: %s]"
+                                    % (hir.line(r), p, d, fmtn(c1, 40), fmtn(c2, 40), fmtn(c3, 160)))
+                    continue
+                att[p].setdefault(kind, set()).add(d)
+    return att, problems, nsites
+
+
 def g12(ctx, F, D):
     # generator
     for fpath, want, name, rule in ((KNIGHTF, KNIGHT, "knight", "C01.G1"), (KINGF, KING, "king", "C01.G2")):
@@ -171,48 +304,40 @@ def g12(ctx, F, D):
         ctx.check(rule, "generator:%s-steps" % name, ok, fn=fpath, file=fn["file"], line=hir.line(tabs[0][2]) if tabs else fn["span"][0],
                   what="the %s step table of the move generator is not the FIDE set" % name, expected=sorted(want),
                   found=[sorted(t[0]) for t in tabs])
-    # detector
+    # detector: every non-ray `return true`, evaluated per attacked side and per delta
     fn = F.fn(DET)
-    loops, sym = for_loops(fn, F)
-    seen = {}
-    for it, names, body, m in loops:
-        tl = tuple_lits(it)
-        if tl is None:
-            continue
-        kinds = piece_types_compared(body, sym)
-        for k in kinds:
-            seen.setdefault(k, []).append((tl, m))
+    att, problems, nsites = detector_step_sites(F, D)
+    ctx.check("C01.G1", "detector:step-sites-test-enemy-on-position+delta", not problems, fn=DET, file=fn["file"],
+              what="a step site of the detector must report an attack exactly when position + delta is on the board and holds an enemy "
+                   "piece of the kind it looks for", expected="off board -> no, empty -> no, PC -> PC.owner != player && PC.piece_type == K",
+              found=problems[:4] or "%d sites" % nsites)
     for kind, want, rule in (("Knight", KNIGHT, "C01.G1"), ("King", KING, "C01.G2")):
-        tabs = seen.get(kind, [])
-        ok = len(tabs) == 1 and set(tabs[0][0]) == want and len(tabs[0][0]) == len(want)
-        ctx.check(rule, "detector:%s-steps" % kind.lower(), ok, fn=DET, file=fn["file"], line=hir.line(tabs[0][1]) if tabs else fn["span"][0],
-                  what="the attack detector looks for an enemy %s on a different set of squares than the %s moves to "
-                       "(generator and detector must agree)" % (kind.lower(), kind.lower()),
-                  expected=sorted(want), found=[sorted(t[0]) for t in tabs])
-    # each table loop: the square tested is position + delta, the piece must be an enemy
-    n = 0
-    for it, names, body, m in loops:
-        if tuple_lits(it) is None:
-            continue
-        n += 1
-        rets = [r for r, _ in hir.walk(body) if r.get("k") == "Ret"]
-        good = False
-        for r in rets:
-            g = hir.guards_of(r, body, sym) or []
-            txt = [fmtn(x[1], 300) for x in g if x[0] == "if" and x[2] is True]
-            add_ok = any(t.startswith("let(v1::Some, Position::add(position, %s)" % names[0]) for t in txt)
-            enemy = any("piece.owner != player" in t for t in txt)
-            good = add_ok and enemy and sym(r["e"]) == ("lit", True)
-        ctx.check("C01.G2" if len(tuple_lits(it)) == 8 and set(tuple_lits(it)) == KING else "C01.G1", "detector:step-loop-tests-enemy-on-position+delta:%d" % n,
-                  good, fn=DET, file=fn["file"], line=hir.line(m),
-                  what="a step loop of the detector must test position + delta for an enemy piece and report an attack",
-                  found=[fmtn(x[1], 160) for r in rets for x in (hir.guards_of(r, body, sym) or []) if x[0] == "if"][:4])
-    ctx.floor("C01.G1", "step-table loops in the detector", n, 2)
+        for p in ("White", "Black"):
+            got = att[p].get(kind, set())
+            ctx.check(rule, "detector:%s-steps/%s" % (kind.lower(), p), got == want, fn=DET, file=fn["file"],
+                      what="the attack detector looks for an enemy %s on a different set of squares than the %s moves to "
+                           "(generator and detector must agree)" % (kind.lower(), kind.lower()),
+                      expected=sorted(want), found=sorted(got))
+    capt = {"White": {(1, 1), (1, -1)}, "Black": {(-1, 1), (-1, -1)}}
+    for who, other in (("White", "Black"), ("Black", "White")):
+        want = {(-dr, -dc) for dr, dc in capt[other]}
+        got = att[who].get("Pawn", set())
+        ctx.check("C01.G4b", "detector:pawn-attackers-of-%s" % who, got == want, fn=DET, file=fn["file"],
+                  what="a %s square is attacked by a %s pawn standing where that pawn's capture step leads to the square: the detector's "
+                       "squares must be the negated capture steps of the opponent (agreement with the generator)" % (who, other),
+                  expected=sorted(want), found=sorted(got))
+    extra = {p: sorted(k for k in att[p] if k not in ("Knight", "King", "Pawn")) for p in att}
+    ctx.check("C01.G1", "detector:no-other-step-attackers", not any(extra.values()), fn=DET, file=fn["file"], nontrivial=False,
+              what="a piece kind other than knight, king and pawn is detected by a single step", found=extra)
+    ctx.floor("C01.G1", "step sites in the detector", nsites, 3)
 
 
 def g3(ctx, F, D):
     # generator: rays per arm of `match self.piece_type`
-    fn = F.fn(GEN)
+    from . import inline
+    fn0 = F.fn(GEN)
+    # direction tables (`for d in DIRECTIONS { for k in 1.. { pos.add(d * k) } }`) are unrolled into one ray loop per entry
+    fn = dict(fn0, hir=inline.unroll_literal_loops(fn0["hir"], F=F))
     env = hir.Env(fn["hir"], F)
     sym = hir.Sym(env, F, depth=30)
     arms = {}
@@ -227,10 +352,9 @@ def g3(ctx, F, D):
         body = arms.get(kind)
         dirs, starts, loops_here = [], set(), []
         if body is not None:
-            sub = {"hir": {"body": body, "params": fn["hir"]["params"]}}
-            loops, lsym = for_loops({"hir": {"body": body, "params": fn["hir"]["params"]}, "path": GEN}, F)
+            loops, lsym = for_loops({"hir": {"body": body, "params": fn["hir"]["params"]}, "path": GEN}, F, env=env)
             for it, names, lb, m in loops:
-                rd = ray_dir(it)
+                rd = ray_of(it, names, lb, sym)
                 if rd:
                     dirs.append(rd[0])
                     starts.add(rd[1])
@@ -256,7 +380,7 @@ def g3(ctx, F, D):
     groups = {}
     total = 0
     for it, names, lb, m in loops:
-        rd = ray_dir(it)
+        rd = ray_of(it, names, lb, dsym)
         if not rd:
             continue
         total += 1
@@ -286,7 +410,7 @@ def ray_body_generator(ctx, fn, lb, m, names, sym, kind):
     for b in breaks:
         g = [x for x in (hir.guards_of(b, lb, sym) or []) if x[0] == "if"]
         t = [(fmtn(x[1], 200), x[2]) for x in g]
-        if len(t) == 1 and t[0][0].startswith("let(v1::Some, Position::add(pos, %s)" % d) and t[0][1] is False:
+        if len(t) == 1 and t[0][0].startswith("let(v1::Some, Position::add(pos, ") and t[0][1] is False:
             edge = True
         if len(t) == 2 and t[0][1] is True and t[1][0].startswith("let(v1::Some, Game::get_position(game, new_pos)") and t[1][1] is True:
             occupied = True
@@ -294,7 +418,7 @@ def ray_body_generator(ctx, fn, lb, m, names, sym, kind):
     for p in pushes:
         g = [x for x in (hir.guards_of(p, lb, sym) or []) if x[0] == "if"]
         t = [(fmtn(x[1], 200), x[2]) for x in g]
-        mv = sym(p["args"][0])
+        mv = normn(sym(p["args"][0]))
         mv_ok = mv[0] == "struct" and mv[1] == MV + "Normal" and dict(mv[2]).get("start") == ("var", "pos") and \
             dict(mv[2]).get("end") == ("var", "new_pos") and dict(mv[2]).get("piece") == ("var", "self") and \
             dict(mv[2]).get("captured_piece") == ("call", "chess::Game::get_position", (("var", "game"), ("var", "new_pos")))
@@ -318,7 +442,7 @@ def ray_body_detector(ctx, det, lb, m, names, sym, direction):
     edge = blocker = hit = False
     for b in breaks:
         t = [(fmtn(x[1], 260), x[2]) for x in (hir.guards_of(b, lb, sym) or []) if x[0] == "if"]
-        if len(t) == 1 and t[0][0].startswith("let(v1::Some, Position::add(position, %s)" % d) and t[0][1] is False:
+        if len(t) == 1 and t[0][0].startswith("let(v1::Some, Position::add(position, ") and t[0][1] is False:
             edge = True
         if len(t) == 3 and t[1][0].startswith("let(v1::Some, Game::get_position(self, new_pos)") and t[1][1] is True and t[2][1] is False:
             blocker = True
@@ -421,38 +545,6 @@ def g4(ctx, F, D):
                       found={"move": mtxt if g else sorted(got)[:8], "conditions": sorted(g[0]) if g else None})
         ctx.check("C01.G4", "pawn:no-other-move-kinds/%s" % owner, len(got) == len(exp), fn=PAWN, file=fn["file"],
                   what="get_pawn_moves constructs a move the rules of chess do not know", expected=len(exp), found=sorted(got))
-    # G4b: detector pawn squares = negated capture steps of the opponent
-    det = F.fn(DET)
-    env = hir.Env(det["hir"], F)
-    dsym = hir.Sym(env, F, depth=30)
-    looked = {}
-    for n, anc in hir.walk(det["hir"]["body"]):
-        if n.get("k") == "Match" and n.get("src") == "Normal" and dsym(n["e"]) == ("var", "player"):
-            for a in n["arms"]:
-                pk = hir.pat_key(a["pat"])
-                if not (isinstance(pk, tuple) and pk[0] == "variant"):
-                    continue
-                who = pk[1][len(PL):]
-                sq = set()
-                okc = True
-                for c, _ in hir.walk(a["body"]):
-                    if c.get("k") == "MethodCall" and (hir.callee_of(c) or "").endswith("Position::add"):
-                        t = dsym(c["args"][0])
-                        if t[0] == "tup" and dsym(c["recv"]) == ("var", "position"):
-                            sq.add((hir.sym_int(t[1]), hir.sym_int(t[2])))
-                kinds = piece_types_compared(a["body"], dsym)
-                rets = [r for r, _ in hir.walk(a["body"]) if r.get("k") == "Ret"]
-                enemy = all(any("piece.owner != player" in fmtn(x[1], 200) for x in (hir.guards_of(r, a["body"], dsym) or []) if x[0] == "if") for r in rets)
-                looked[who] = (sq, kinds, enemy, len(rets))
-    capt = {"White": {(1, 1), (1, -1)}, "Black": {(-1, 1), (-1, -1)}}
-    for who, other in (("White", "Black"), ("Black", "White")):
-        want = {(-dr, -dc) for dr, dc in capt[other]}
-        got = looked.get(who)
-        ok = got is not None and got[0] == want and got[1] == {"Pawn"} and got[2] and got[3] == 2
-        ctx.check("C01.G4b", "detector:pawn-attackers-of-%s" % who, ok, fn=DET, file=det["file"],
-                  what="a %s square is attacked by a %s pawn standing where that pawn's capture step leads to the square: the detector's "
-                       "squares must be the negated capture steps of the opponent (agreement with the generator)" % (who, other),
-                  expected=sorted(want), found=(sorted(got[0]), sorted(got[1]), {"enemy-only": got[2]}) if got else None)
 
 
 def _same_conditions(got, want):
@@ -551,32 +643,61 @@ def g6(ctx, F, D):
     ctx.check("C01.G6", "filter:mover-king-and-check-status-captured-before-the-loop", bool(player and kp and chk), fn=FILTER, file=fn["file"],
               what="the legality filter must capture the mover, the mover's king square and whether that king is in check before it "
                    "starts playing moves", found={k: v for k, v in lets.items() if v[1] == 0})
-    # shortcut
-    conts = [n for n, _ in hir.walk(body) if n.get("k") == "Continue"]
-    ok = len(conts) == 1
-    found = None
-    if ok:
-        g = [x for x in (hir.guards_of(conts[0], body, sym) or []) if x[0] == "if"]
-        t = [(fmtn(hir.canon(x[1]), 300), x[2]) for x in g]
-        found = t
-        mvv = None
-        for x in g:
-            if x[1][0] == "let" and x[1][1] == ("variant", MV + "Normal"):
-                mvv = x[1]
-        startn = (mvv[3][0] if mvv and mvv[3] else "?")
-        dc = "(Position::col(%s) - Position::col(%s))" % (startn, kpn)
-        dr = "(Position::row(%s) - Position::row(%s))" % (startn, kpn)
-        want = {("verify_king", True), (chn, False), ("(%s != 0)" % dc, True), ("(%s != 0)" % dr, True),
-                ("(<impl i8>::abs(%s) != <impl i8>::abs(%s))" % (dc, dr), True)}
-        have = {x for x in t if not x[0].startswith("let(") and not x[0].startswith("Game::king_exists")}
-        # abs comparison operands may be in either order after canon
-        alt = {("(<impl i8>::abs(%s) != <impl i8>::abs(%s))" % (dr, dc), True) if "abs" in w[0] else w for w in want}
-        ok = mvv is not None and (have == want or have == alt) and mvv[2] in (("index", ("var", "moves"), ("var", "index")), ("var", "_move"))
+    # kept-iff: the condition under which an element is copied to the kept prefix, as a truth table over
+    # (in check?, kind of move, origin relative to the king, own king attacked after the move?)
+    ATT0 = ("call", "chess::Game::is_targeted", (("var", "self"), ("call", "chess::Game::get_king_position", (("var", "self"), ("var", pl))), ("var", pl)))
+    symk = hir.Sym(env, F, depth=30, keep={pl, kpn, chn})
+    vvars = [n["pat"]["name"] for n, _ in hir.walk(body) if n.get("k") == "SLet" and n["pat"].get("k") == "PBind" and n.get("init") is not None
+             and symk(n["init"]) == ("not", ATT0)]
+    # look through the lets of the loop body (`let is_legal = a || b`), but keep the pre-loop captures and the verification result symbolic
+    sym2 = hir.Sym(env, F, depth=30, through=True, keep={pl, kpn, chn} | set(vvars))
+    sites = []
+    for n, anc in hir.walk(body):
+        if n.get("k") == "Assign" and any(a.get("k") == "Loop" for a in anc):
+            l = hir.strip(n["l"])
+            if l.get("k") == "Index" and hir.strip(l["e"]).get("to", {}).get("name") == "moves":
+                sites.append((n, list(hir.guards_of(n, body, sym2) or [])))
+    K = ("lit", False)
+    for n, g in sites:
+        K = ("bin", "||", K, hir.guards_term(g))
+    S_, KP = ("var", "S"), ("var", kpn)
+    ATT = ("call", "chess::Game::is_targeted", (("var", "self"), ("call", "chess::Game::get_king_position", (("var", "self"), ("var", pl))), ("var", pl)))
+    bad = []
+    n_rows = 0
+    kinds = {"Normal": ("struct", MV + "Normal", (("captured_piece", ("var", "CP")), ("end", ("var", "E")), ("piece", ("var", "PCE")), ("start", S_))),
+             "EnPassant": ("struct", MV + "EnPassant", (("end_col", ("var", "EC")), ("owner", ("var", "O")), ("start_col", ("var", "SC")))),
+             "CastlingShort": ("struct", MV + "CastlingShort", (("owner", ("var", "O")),)),
+             "Promotion": ("struct", MV + "Promotion", (("captured_piece", ("var", "CP")), ("end", ("var", "E")), ("new_piece", ("var", "NPC")),
+                                                       ("owner", ("var", "O")), ("start", S_)))}
+    elem_keys = [("var", "_move"), ("index", ("var", "moves"), ("var", "index"))]
+    for in_check in (False, True):
+        for kind, mv in kinds.items():
+            for dc, dr in ((0, 0), (0, 3), (3, 0), (2, 2), (2, -2), (-2, -2), (1, 2), (-3, 1), (5, -1)):
+                for att in (False, True):
+                    a = {("var", chn): ("lit", in_check), ("var", "verify_king"): ("lit", True), ATT: ("lit", att),
+                         ("call", "chess::Game::king_exists", (("var", "self"), ("field", ("var", "self"), "current_player"))): ("lit", True),
+                         ("call", "chess::Game::king_exists", (("var", "self"), ("var", pl))): ("lit", True),
+                         ("call", "chess::position::Position::col", (S_,)): ("lit", dc), ("call", "chess::position::Position::row", (S_,)): ("lit", dr),
+                         ("call", "chess::position::Position::col", (KP,)): ("lit", 0), ("call", "chess::position::Position::row", (KP,)): ("lit", 0)}
+                    for ek in elem_keys:
+                        a[ek] = mv
+                    for vv in vvars:
+                        a[("var", vv)] = ("lit", not att)
+                    v = hir.fold(K, a, D)
+                    want = (not in_check and kind == "Normal" and dc != 0 and dr != 0 and abs(dc) != abs(dr)) or (not att)
+                    n_rows += 1
+                    if v != ("lit", want):
+                        bad.append({"in check": in_check, "move": kind, "origin - king": (dc, dr), "king attacked after": att,
+                                    "kept": fmtn(v, 120), "expected": want})
+    ok = bool(sites) and not bad
+    found = bad[:3] or "%d keep site(s), %d cases" % (len(sites), n_rows)
+    conts = sites
     ctx.check("C01.G6", "filter:verification-skipped-only-for-unaligned-normal-moves-when-not-in-check", ok, fn=FILTER, file=fn["file"],
-              line=hir.line(conts[0]) if conts else fn["span"][0],
-              what="the push/pop verification may be skipped only if the king is not in check and the move is a Normal move whose origin is "
-                   "neither on the king's row, column nor diagonal (any other skipped move could expose or leave the king in check)",
-              expected="!in_check && Normal{start} && dcol != 0 && drow != 0 && |dcol| != |drow|", found=found)
+              line=hir.line(sites[0][0]) if sites else fn["span"][0],
+              what="a move is kept exactly when the mover's king is not attacked after it; the push/pop verification may be replaced by "
+                   "`kept` only if the king is not in check and the move is a Normal move whose origin is neither on the king's row, "
+                   "column nor diagonal (any other skipped move could expose or leave the king in check)",
+              expected="kept <=> (!in_check && Normal{start} && dcol != 0 && drow != 0 && |dcol| != |drow|) || !attacked_after", found=found)
     # verification sequence
     push = [n for n, _ in hir.walk(body) if n.get("k") == "MethodCall" and hir.callee_of(n) == "chess::Game::push"]
     pop = [n for n, _ in hir.walk(body) if n.get("k") == "MethodCall" and hir.callee_of(n) == "chess::Game::pop"]
@@ -618,9 +739,7 @@ def g6(ctx, F, D):
                 g = [(fmtn(x[1], 120), x[2]) for x in (hir.guards_of(n, body, sym) or []) if x[0] == "if"]
                 writes.append((fmtn(sym(l["i"]), 40), fmtn(sym(n["r"]), 60), g, n))
     keepv = writes[0][0] if writes else "?"
-    ok = len(writes) == 2 and all(w[0] == keepv and w[1] in ("_move", "index(moves, index)") for w in writes)
-    kept_if = [w for w in writes if (cond_name, True) in w[2]]
-    ok = ok and len(kept_if) == 1
+    ok = len(writes) >= 1 and all(w[0] == keepv and w[1] in ("_move", "index(moves, index)") for w in writes)
     ctx.check("C01.G8", "filter:keeps-exactly-the-moves-that-pass", ok, fn=FILTER, file=fn["file"],
               what="the filter may only copy an element of the list down to the keep index (shortcut) or when the verification succeeded",
               found=[(w[0], w[1], w[2][-2:]) for w in writes])
@@ -628,7 +747,7 @@ def g6(ctx, F, D):
     ok = len(tr) == 1 and fmtn(sym(tr[0]["args"][0]), 40) == keepv
     incs = [n for n, _ in hir.walk(body) if n.get("k") == "AssignOp" and n["op"] == "+=" and hir.strip(n["l"]).get("to", {}).get("name") == keepv
             and hir.strip(n["r"]).get("v") == 1]
-    ctx.check("C01.G8", "filter:truncates-to-the-kept-prefix", ok and len(incs) == 2, fn=FILTER, file=fn["file"],
+    ctx.check("C01.G8", "filter:truncates-to-the-kept-prefix", ok and len(incs) == len(writes) and len(writes) >= 1, fn=FILTER, file=fn["file"],
               what="the list must be truncated to exactly the kept moves (keep index advanced once per kept move)",
               found={"truncate": [fmtn(sym(t["args"][0]), 40) for t in tr], "increments": len(incs)})
     # every own piece contributes, in both modes
